@@ -14,6 +14,7 @@ import (
 	"sort"
 	"strings"
 	"sync"
+	"time"
 
 	"github.com/aws/aws-sdk-go/aws"
 	"github.com/aws/aws-sdk-go/aws/awserr"
@@ -52,6 +53,9 @@ const (
 	FailBefore               // request has no effect, client gets an error
 	ApplyThenFail            // request takes effect, client gets an error
 	FaultNoSuchKey           // GET answers "no such object" although it exists
+	// FaultHang: the request gets no answer until the caller's own context is done (its deadline expires), then
+	// fails the way the AWS SDK reports a cancelled request. Has no effect on the store.
+	FaultHang
 )
 
 // Bucket is an in-memory object store with S3's current consistency model:
@@ -235,7 +239,17 @@ func (h *Handle) begin(ctx aws.Context, op, key string, body []byte) (*Req, Faul
 		return r, FailBefore, awserr.New(request.CanceledErrorCode, "request context canceled", err)
 	}
 	if h.Fault != nil {
-		if mode, err := h.Fault(r); mode != FaultNone {
+		mode, err := h.Fault(r)
+		if mode == FaultHang {
+			select {
+			case <-ctx.Done():
+			case <-time.After(60 * time.Second): // no deadline set: the harness made a mistake; do not block forever
+			}
+			r.Outcome = "ctx"
+			h.record(r)
+			return r, FailBefore, awserr.New(request.CanceledErrorCode, "request context canceled", context.DeadlineExceeded)
+		}
+		if mode != FaultNone {
 			return r, mode, err
 		}
 	}
